@@ -1019,6 +1019,8 @@ def load(odffile):
             doc.addThumbnail(z.read(mentry))
         elif mentry in (u'settings.xml', u'meta.xml', u'content.xml', u'styles.xml'):
             pass
+        elif mentry in (u'/', u'Thumbnails/', u'mimetype', u'META-INF/manifest.xml'):
+            pass # written afresh by save(); keeping them as extras would list them twice
         # Load subobjects into structure
         elif mentry[:7] == u"Object " and len(mentry) < 11 and mentry[-1] == u"/":
             subdoc = OpenDocument(mvalue['media-type'], add_generator=False)
